@@ -459,6 +459,12 @@ def finish(ctx):
     if ctx.broken:
         ev["coverage"]["no_longer_checks"] = [{"kind": b[0], "name": b[1]} for b in ctx.broken]
     ev["coverage"]["known_findings_seen"] = sorted(seen_known)
+    # keep the schema's typed keys well-typed whatever a property module put there (anything else goes to <key>_detail)
+    cov = ev["coverage"]
+    for k, typ in (("evaluations", int), ("distinct_nontrivial", int), ("states", int), ("transitions", int), ("traces_validated_against_impl", int),
+                   ("obligations", int), ("discharged", int), ("exhaustive", bool), ("rule", str), ("samples", list)):
+        if k in cov and (not isinstance(cov[k], typ) or (typ is int and isinstance(cov[k], bool))):
+            cov[k + "_detail"] = cov.pop(k)
     # evidence/ only ever describes runs against /repo itself; runs against a scratch repo (VERIF_REPO) go to build/
     evdir = os.path.join(VERIF, "evidence") if REPO == "/repo" else os.path.join(BUILD, "evidence")
     os.makedirs(evdir, exist_ok=True)
